@@ -44,6 +44,12 @@ NewRun(ev) ==
 \* a message citing a source line is pending after PRINT / INT 0 / INT 3 / unsupported AH
 Pending(kind, e, idx) == <<kind, idx, e.line, IF kind = "int3" THEN "" ELSE e.text>>
 
+\* a console service that the program asked for (a supported INT 10h / INT 21h function) must run before anything else
+\* happens: C18 owns the verdict (the run going on or ending without it is otherwise only seen as a control mismatch)
+\* ... and an unsupported function must be reported (C18 says so as well as C16, which owns the wording and the line cited)
+BadAhReported(r) == Check(r.msg = << >> \/ r.msg[1] # "badah", "int", <<"an unsupported AH value was not reported; pending", r.msg>>)
+ServiceRan(r) == Check(r.d.phase # "service", "int", <<"the service", r.d.svc, "was due and did not run; index", r.d.idx>>)
+
 OnAsm(r, ev) ==
   /\ Check(r.refuse = "", "reject-" \o r.refuse, <<"the program was accepted; it must be refused:", r.refuse>>)
   /\ Check(r.d.phase = "boot", "order", <<"asm in phase", r.d.phase>>)
@@ -67,7 +73,8 @@ OnPrompt(r, ev) ==
   LET d == r.d
       due == PromptDue(r.P, r.C, d)
       e == IF ev.idx < Len(r.C.code) THEN r.C.code[ev.idx + 1] ELSE Entry(HltIns, 0, "", << >>)
-  IN /\ Check(d.phase = "fetch" /\ due, "prompt", <<"unexpected prompt: phase", d.phase, "stepping", due>>)
+  IN /\ ServiceRan(r)
+     /\ Check(d.phase = "fetch" /\ due, "prompt", <<"unexpected prompt: phase", d.phase, "stepping", due>>)
      /\ Check(ev.idx = d.idx, "control", <<"prompt for index", ev.idx, "expected", d.idx>>)
      /\ Check(ev.line = e.line /\ ev.text = e.text, "banner", <<"prompt names line", ev.line, ev.text, "instruction is on line", e.line, e.text>>)
      /\ Check(ev.tf = FlagSet(d.m.flags, TF), "banner", <<"trap flag shown", ev.tf>>)
@@ -106,6 +113,7 @@ OnStep(r, ev) ==
      THEN /\ Check(FALSE, "reject-" \o r.refuse, <<"an instruction of a program that must be refused was executed", ev.line>>)
           /\ run' = [r EXCEPT !.d = [d EXCEPT !.phase = "done", !.outfree = TRUE, !.why = "unexpected"]]
      ELSE
+     /\ ServiceRan(r) /\ BadAhReported(r)
      \* a prompt must have preceded this invocation while stepping (optional before re-invoking a REP line)
      /\ Check(d.phase = "invoke" \/ (d.phase = "fetch" /\ (~due \/ d.rep)), "prompt",
               <<"instruction invoked in phase", d.phase, "prompt due", due>>)
@@ -181,6 +189,7 @@ OnDiag(r, ev) ==
 
 OnExit(r, ev) ==
   LET d == r.d IN
+  /\ ServiceRan(r) /\ BadAhReported(r)
   /\ Check(d.phase = "done" /\ (ev.why = "quit") = (d.why = "quit"), IF d.phase = "prompt" \/ ev.why = "quit" THEN "prompt" ELSE "control",
            <<"exit", ev.why, "in phase", d.phase, "expected end", d.why, "index", d.idx>>)
   /\ Check(r.msg = << >>, "banner", <<"message not shown", r.msg>>)
